@@ -287,7 +287,8 @@ theorem get_set_path (path : String) (t v : Json) :
     ∃ r, setAtPath t (splitPath path) v = .ok r ∧ getAtPath r (splitPath path) = some v :=
   get_set _ (splitPath_ne_nil path) t v
 
-/-- Frame: top-level keys other than the first segment keep their values. -/
+/-- Frame, top level only (helper; `set_frame` in `Props/C25Seq.lean` is the statement for
+siblings at every depth). -/
 theorem set_keeps_other_keys (p : List String) (s k : String) (t v r : Json)
     (h : setAtPath t (s :: p) v = .ok r) (hk : k ≠ s) :
     ∃ kvs, r = .obj kvs ∧ lookup k kvs = lookup k (fieldsOrEmpty t) := by
@@ -328,7 +329,14 @@ theorem updateFromStr_ok (norm : Norm) (doc : Doc) (fmt : String) (self s : Json
 
 /-- **failed_update_unchanged** (`update_from_str`, hence `with_json`/`with_toml` callers):
 any error — unsupported format, parse error, type error, validation error — leaves `self`
-exactly as it was. -/
+exactly as it was.
+
+Like the code (`*self = self.with_string(..)?`), the model builds the new value first and assigns
+only on success, so this and the four theorems below are short. What carries the clause against
+the *code* is (1) the differential run, which compares the settings value after every failing call
+(`s=` / `tl=` in the error replies) with the model's, and (2) the oracle class `atomicity`
+evaluated on the real `Settings` / thread-local value / `Context`. Their content over histories is
+`runOps_failed_noop` in `Props/C25Seq.lean`. -/
 theorem failed_update_unchanged (norm : Norm) (doc : Doc) (fmt : String) (self : Json) (e : Err)
     (h : (updateFromStr norm doc fmt self).1 = .error e) :
     (updateFromStr norm doc fmt self).2 = self := by
@@ -413,7 +421,9 @@ example :
 /-! ## set_value then get_value on settings -/
 
 /-- When the schema keeps the edited document as it is (`norm` is the identity on it), a
-successful `set_value(path, v)` makes `get_value(path)` return `v`. -/
+successful `set_value(path, v)` makes `get_value(path)` return `v`. (Helper: the special case
+`s = m` of `setValue_getValue_kept` in `Props/C25Seq.lean`, which needs only that `norm` keeps
+what the document holds *at the path*.) -/
 theorem setValue_getValue (norm : Norm) (path : String) (v self m : Json)
     (hm : setAtPath self (splitPath path) v = .ok m) (hfix : norm m = .ok m) :
     setValue norm path v self = (.ok (), m) ∧ getValue m path = .ok v := by
@@ -442,8 +452,9 @@ example : setAtPath (.obj [("verify", .obj [("verify_trust", .bool true)])])
 
 /-! ## the format matters only in parsing -/
 
-/-- **json_toml_equal.** A JSON document and a TOML document that parse to the same value give
-the same result (new settings or error) from the same starting settings. -/
+/-- json_toml_equal (helper; the clause itself is `json_toml_equiv` in `Props/C25Equiv.lean`).
+A JSON document and a TOML document that parse to the *same ordered* value give the same result
+from the same starting settings — the format is consulted by `parse_to_value` only. -/
 theorem json_toml_equal (norm : Norm) (self : Json) (dj dt : Doc) (h : dj.json = dt.toml) :
     withString norm self dj "json" = withString norm self dt "toml" := by
   have hj : parseToValue dj "json" = dj.json := by simp [parseToValue, toLower_json]
